@@ -169,21 +169,6 @@ def run(R):
             R.fail('C18.MPT.2', inst, sh.qual, construct if not isinstance(construct, ast.FunctionDef) else 'def sync_handler', what, site(sh, construct))
     else:
         R.ok('C18.MPT.2', inst, site(sh, nf_true[0].ast))
-    # ------------------------------------------------------------------ ORD.2 the application callback is the handler's last effect
-    R.ob('C18.ORD.2', 'the missing-data callback runs after the handler has finished with the timer state: nothing the callback may trigger '
-                      '(a publish arms the timer for an immediate sync Interest) is overwritten afterwards')
-    inst = sh.qual + ' :: no timer / state write after on_missing_data'
-    if len(cbs) == 1:
-        (cn, cc) = cbs[0]
-        after_cb = reach_from_succ(sh.cfg, cn, follow_exc=False)
-        late = [n for n in sh.cfg.nodes if n.id in after_cb and n.kind == 'stmt' and isinstance(n.ast, (ast.Assign, ast.AugAssign)) and any(
-            isinstance(t, ast.Attribute) and isinstance(t.value, ast.Name) and t.value.id == 'self' and t.attr in ('next_sync_timing', 'state', 'agg_sv')
-            for t in (n.ast.targets if isinstance(n.ast, ast.Assign) else [n.ast.target]))]
-        if late:
-            R.fail('C18.ORD.2', inst, sh.qual, late[0].ast, f'`{norm(late[0].ast)}` runs after the application callback: a publish made from inside the callback sets the '
-                   'timer to fire at once, and this later write pushes it out by a whole period - the new data is not announced promptly', site(sh, late[0].ast))
-        else:
-            R.ok('C18.ORD.2', inst, site(sh, cc))
     # ------------------------------------------------------------------ ORD.3 a pending emission is not postponed by a whole period
     R.ob('C18.ORD.3', 'sync_handler restarts the periodic timer only when no emission is already due: new_data() arms the timer for an immediate '
                       'sync Interest, and a vector handled before the timer task wakes must not push that out by a sync period')
